@@ -234,6 +234,12 @@ Ev(P, e, st) ==
     [] e.k = "apop" ->
          LET arr == Get(st, e.a) IN
          IF Len(arr) = 0 THEN Val(NoneV, st) ELSE Val(SomeV(arr[1]), Put(st, e.a, Tail(arr)))
+    [] e.k = "aspan" -> Val(Get(st, e.a), st)     \* a span is an immutable view: value copy of the current contents
+    [] e.k = "slen" -> Val(Len(Get(st, e.s)), st)
+    [] e.k = "sat" ->
+         LET i == Ev(P, e.i, st) IN IF i.k # "val" THEN i ELSE
+         LET sp == Get(i.st, e.s) IN
+         IF i.v >= 0 /\ i.v < Len(sp) THEN Val(sp[i.v + 1], i.st) ELSE Panic("Index out of bounds", i.st)
     [] e.k = "dnew" -> Val(<<>>, st)      \* the empty function
     [] e.k = "dget" ->
          LET k == Ev(P, e.key, st) IN IF k.k # "val" THEN k ELSE
